@@ -83,6 +83,13 @@ Theorem C18_file_name_inj :
 Proof. exact file_name_inj. Qed.
 Print Assumptions C18_file_name_inj.
 
+(* node IDs are unique in the whole file: the name of a node determines its cluster (None = main automaton,
+   Some t = the lookahead of token type t) and its state *)
+Theorem C18_node_names_injective :
+  forall p id p' id', name_chars p id = name_chars p' id' -> p = p' /\ id = id'.
+Proof. exact name_chars_inj. Qed.
+Print Assumptions C18_node_names_injective.
+
 (* THE START STATE. The renderer draws state 0 without an accepting label even if it accepts (the
    `q <> 0` above). For the picture to show EXACTLY the accepting states, state 0 must not accept:
    then the accepting labels are exactly the accepting states with their token types. *)
